@@ -1007,6 +1007,11 @@ class Analysis:
                 return
             if cnt == 1:
                 self.havoc_loop(st, b)
+                # a new iteration of this loop executes its inner loops afresh: their invariants must be established
+                # again from the entry state of that execution, not inherited from the previous iteration's run
+                for h in self.loops[b.id]:
+                    if h != b.id and h in self.loops:
+                        st.visits.pop(h, None)
             elif cnt == 0 and b.id != stop_head and self.infer_depth < 2:
                 self.infer_depth += 1
                 try:
@@ -1152,6 +1157,9 @@ class Analysis:
             # fresh state at the head: everything the loop modifies is havocked, candidates assumed
             q = st.clone()
             q.visits = dict(st.visits)
+            for h in self.loops[head.id]:
+                if h != head.id and h in self.loops:
+                    q.visits.pop(h, None)
             q.visits[head.id] = 1
             self.havoc_loop(q, head)
             entry_env = {v: q.env[v] for v in vars_}
